@@ -1,6 +1,6 @@
 SPECIFICATION Spec
 CONSTANTS
-  TypeSet <- TypesCppC
+  TypeSet <- QuickB
   TopLen = 2
   TypesOnly = FALSE
   Dump = TRUE
